@@ -152,5 +152,5 @@ def io3(ctx, prog, cfg):
 
 def io4(ctx, prog, cfg):
     shapes.must_match(ctx, "IO4", prog, BR + "consume",
-                      [r"call CircularBuffer::drain\(self, RangeTo::RangeTo\{end: core::cmp::min\(\(\*self\)\.size, amt\)\}\)", r"return const"], cfg,
+                      [r"call CircularBuffer::drain\(self, RangeTo::RangeTo\{end: (core::cmp::min|core::cmp::Ord::min|<usize>::min)\(\(\*self\)\.size, amt\)\}\)", r"return const"], cfg,
                       "drain(..min(amt, len))", "`consume` is not `self.drain(..min(amt, self.len()))`: it removes a different number of bytes or can hit the range panic")
